@@ -15,7 +15,7 @@ from ..universe import prelude
 
 ID = "C15"
 STEP = 400
-BUILD_LIMIT = 5.0
+BUILD_LIMIT = 20.0  # wall clock; generous so that an overloaded machine is not mistaken for non-termination
 MAXTASKS = 8
 
 MODSRC = '''
